@@ -5517,8 +5517,21 @@ class PyCdlib:
             # Record and the Boot Catalog become part of the ISO.
             self._check_new_paths(bootcatfile, joliet_bootcatfile, udf_bootcatfile)
             self._check_rr_name(rrname)
-            (bootcat_name, bootcat_parent_unused) = self._iso_name_and_parent_from_path(utils.normpath(bootcatfile))
+            bootcat_path_bytes = utils.normpath(bootcatfile)
+            if not self.rock_ridge and self.enhanced_vd is None:
+                _check_path_depth(bootcat_path_bytes)
+            (bootcat_name, bootcat_parent) = self._iso_name_and_parent_from_path(bootcat_path_bytes)
             _check_iso9660_filename(bootcat_name, self.interchange_level)
+            if self.rock_ridge:
+                # Making a record (that is then thrown away) is what tells
+                # whether the Rock Ridge name fits.
+                scratch_rec = dr.DirectoryRecord()
+                scratch_rec.new_file(self.pvd, self.logical_block_size,
+                                     bootcat_name, bootcat_parent,
+                                     self.pvd.sequence_number(),
+                                     self.rock_ridge,
+                                     self._check_rr_name(rrname), self.xa,
+                                     0o0100444, time.time())
 
             br = headervd.BootRecord()
             br.new(b'EL TORITO SPECIFICATION')
